@@ -853,3 +853,39 @@ def import_scenario(rng):
                "1\n:::\nItems start with let or ret\n")
     return dict(family="imports-" + shape, versions=versions, edits=edits, probes=probes,
                 pge=pge, layout="ws", lex_overlap=False, recognizers={})
+
+
+def import_samename_scenario(rng):
+    """Grammar split over files in which several imported files define symbols of
+    the SAME NAME (different fully qualified names), same priority and same
+    recognizer kind/length, all of them lookaheads of one reduction."""
+    n = rng.randint(2, 3)
+    mods = ["add", "sub", "mul"][:n]
+    kind = rng.choice(["str", "re", "re-overlap"])
+    texts = rng.sample(["+", "-", "*", "/", "%", "^"], n)
+    files = {}
+    for m, t in zip(mods, texts):
+        if kind == "str":
+            body = quote(t)
+        elif kind == "re":
+            body = "/" + re.escape(t).replace("/", r"\/") + "/"
+        else:
+            body = "/[" + re.escape(t) + re.escape(texts[0]) + "]/"
+        files[f"{m}.pg"] = f"Sign: OP;\nterminals\nOP: {body};\n"
+    alts = [f"E {m}.OP E" for m in mods]
+    if rng.random() < 0.5:
+        alts = [a + " {left, 1}" for a in alts]
+    if rng.random() < 0.5:
+        alts.append("E " + ".Sign ".join(mods[:2]) + ".Sign E")
+    rng.shuffle(alts)
+    root = "".join(f"import '{m}.pg' as {m};\n" for m in mods)
+    root += "S: E;\nE: " + "\n | ".join(alts + ["NUM"]) + ";\nterminals\nNUM: /\\d+/;\n"
+    files["g.pg"] = root
+    inputs = []
+    for _ in range(3):
+        k = rng.randint(1, 4)
+        toks = ["1"]
+        for _ in range(k):
+            toks += [rng.choice(texts), rng.choice(["2", "3", "10"])]
+        inputs.append(" ".join(toks))
+    return dict(family="imports-samename", files=files, inputs=inputs)
